@@ -902,6 +902,10 @@ def _isinstance(ex, v, typ):
             return False
         if n in ('numpy.float64', 'numpy.floating'):
             return isinstance(v, SymScalar) and v.pytype == 'np.float64'
+        if n in ('numpy.number', 'numpy.generic'):
+            return isinstance(v, SymScalar) and v.pytype.startswith('np.')
+        if n == 'numpy.integer':
+            return isinstance(v, SymScalar) and v.pytype.startswith('np.int')
         raise OutOfSubset('isinstance(..., %s)' % n)
     raise PyRaise('TypeError', 'isinstance() arg 2 must be a type')
 
